@@ -1,9 +1,9 @@
 package dbsim
 
 import (
-	"os"
 	"errors"
 	"fmt"
+	"os"
 	"strings"
 	"testing/synctest"
 	"time"
@@ -81,14 +81,19 @@ func (m *modeC) open(ignorePrefixes ...string) error {
 		}
 		return false
 	}
+	if hs := w.C.CfgInt("hold_site", 0); hs > 0 {
+		w.Sched.HoldTask, w.Sched.HoldNth, w.Sched.HoldFirst = "client0", int(w.C.CfgInt("hold_nth", 1)), true
+		if hs == 1 {
+			w.Sched.HoldSite = "orc.readts.waited"
+		}
+	}
 	if d := int(w.C.CfgInt("pct_depth", 0)); d > 0 {
 		w.Sched.UsePCT(d, int(w.C.CfgInt("pct_horizon", 300)))
 		if odds := int(w.C.CfgInt("pause_odds", 0)); odds > 0 {
 			w.Sched.PauseOdds = odds
 			w.Sched.PauseBudget = int(w.C.CfgInt("pause_budget", 0))
 			w.Sched.PauseAt = map[string]bool{}
-			for _, site := range []string{"wm.begin.published", "wm.add.window", "wm.add.added", "orc.committs.issued", "orc.committs.begun",
-				"orc.readts.loaded", "orc.readts.clamped", "orc.readts.waited", "commit.batch.formed", "commit.vlog.written", "commit.applied",
+			for _, site := range []string{"wm.begin.published", "wm.add.added", "orc.readts.waited", "commit.batch.formed", "commit.vlog.written", "commit.applied",
 				"txn.commit.written", "orc.donecommit", "db.write.enqueued", "db.write.acked", "client.begin", "client.step", "lock.pre"} {
 				w.Sched.PauseAt[site] = true
 			}
